@@ -106,8 +106,23 @@ pub fn gen_scenario(rng: &mut Rng, idx: u64, for_schedules: bool) -> Option<Scen
     }
     let poses: Vec<Fr> = seeds.iter().map(|s| ref_tcp(&cell, s)).collect();
     // schedule scenarios: mostly an obstacle that blocks one IK branch mid-stroke while others stay free
-    let layout = if for_schedules { *rng.pick(&["branch_blocking", "branch_blocking", "branch_blocking", "none"]) } else { *rng.pick(&["none", "grazing", "grazing", "blocking", "branch_blocking", "branch_blocking"]) };
-    if layout != "none" {
+    let layout = if for_schedules { *rng.pick(&["branch_blocking", "branch_blocking", "branch_blocking", "none"]) } else { *rng.pick(&["none", "grazing", "grazing", "blocking", "branch_blocking", "branch_blocking", "landing_grazing"]) };
+    if layout == "landing_grazing" {
+        // an obstacle a few millimetres inside the tool's safety distance AT the landing pose (every IK
+        // branch of the landing pose has the tool there), with the rest of the stroke left free: nothing
+        // but the landing configuration itself is illegal, so a plan must not come back
+        let safety = cell.safety.lookup(J_TOOL, 1000).max(0.0) as f64;
+        for _ in 0..6 {
+            let gap = safety - rng.range(0.001, 0.004);
+            cell.add_designed_obstacle(rng, &seeds[0], J_TOOL, gap);
+            let r2 = cell.build();
+            if seeds[1..].iter().any(|q| r2.collides(q)) || !r2.collides(&seeds[0]) {
+                cell.env.pop();
+            } else {
+                break;
+            }
+        }
+    } else if layout != "none" {
         let k = 1 + rng.usize(seeds.len() - 1);
         let gap = if layout == "grazing" { cell.safety.lookup(J_TOOL, 1000).max(0.0) as f64 + rng.range(0.004, 0.02) } else { -0.02 };
         // the tool occupies the same space in every IK branch; an obstacle at the elbow links blocks
@@ -126,7 +141,7 @@ pub fn gen_scenario(rng: &mut Rng, idx: u64, for_schedules: bool) -> Option<Scen
         }
     }
     let robot = cell.build();
-    let start_class = if for_schedules || rng.bool(0.5) { "landing_solution" } else { "other_posture" };
+    let start_class = if layout != "landing_grazing" && (for_schedules || rng.bool(0.5)) { "landing_solution" } else { "other_posture" };
     let from = if start_class == "landing_solution" {
         q_land
     } else {
